@@ -21,6 +21,7 @@ import imath  # noqa: E402
 
 from sim import pytypes as PT  # noqa: E402
 from sim.prng import Rng, mix  # noqa: E402
+from sim.c19 import families as FAM  # noqa: E402
 
 PROGRESS = False
 
@@ -139,8 +140,6 @@ class Store:
 
 class Handle:
     """one live object: the real thing + its model"""
-    __slots__ = ("real", "kind", "tname", "store", "idx", "writable", "masked", "comp", "owner_dead", "ulen", "upos")
-
     def __init__(self, real, kind, tname, store, idx, writable, masked=False, comp=None):
         self.real, self.kind, self.tname, self.store, self.idx = real, kind, tname, store, list(idx)
         self.writable, self.masked, self.comp = writable, masked, comp
@@ -169,6 +168,8 @@ class Handle:
 
     def hkind(self):
         s = self.kind
+        if self.kind in ("varr", "str"):
+            s = self.kind + ("-masked" if self.masked else "")
         if self.kind == "arr":
             s = "masked" if self.masked else "direct"
             if self.comp is not None:
@@ -210,84 +211,108 @@ def gen_slice(r, n):
     return [pick(), pick(), step]
 
 
+def gen_op_fields(r, o, op, mode, maxn, types):
+    if o in ("new", "newval"):
+        op["t"] = r.choice(types)
+        op["n"] = r.range(0, maxn)
+        op["fill"] = r.chance(0.8)
+    elif o in ("get",):
+        op["i"] = r.range(-maxn - 1, maxn)
+        op["keep"] = r.chance(0.4)
+    elif o == "bad_get":
+        op["i"] = r.choice([maxn + 1, -maxn - 2, 2 ** 31, -2 ** 31, 2 ** 32, -2 ** 32, 2 ** 63 - 1, -2 ** 63, 2 ** 64, 2 ** 32 + 1])
+        op["rel"] = r.chance(0.5)      # relative to the actual length: n, -n-1
+    elif o == "slice":
+        op["s"] = gen_slice(r, maxn)
+    elif o in ("mask", "setm_s", "setm_a", "ifelse_s", "ifelse_a"):
+        op["m"] = [r.choice([0, 1, 1, 0, 2, -1]) for _ in range(maxn)]
+        op["dlen"] = r.weighted([(9, 0), (1, r.choice([-1, 1, 2]))]) if mode == "faults" else 0
+        if o == "setm_a":
+            op["form"] = r.weighted([(4, "full"), (4, "packed"), (2, "bad")]) if mode == "faults" else r.weighted([(4, "full"), (4, "packed")])
+        if o == "ifelse_a":
+            op["dlen2"] = r.weighted([(9, 0), (1, 1)]) if mode == "faults" else 0
+    elif o in ("set_s", "set_a", "bad_set"):
+        op["idx"] = r.range(-maxn - 1, maxn) if r.chance(0.5) else gen_slice(r, maxn)
+        if o == "bad_set":
+            op["idx"] = r.choice([2 ** 31, -2 ** 31, 2 ** 32, 2 ** 32 + 1, 2 ** 63 - 1, -2 ** 63, maxn + 3, 2 ** 64, -2 ** 64, 2 ** 63])
+        op["dlen"] = r.weighted([(9, 0), (1, r.choice([-1, 1]))]) if mode == "faults" else 0
+        op["src"] = r.weighted([(6, "new"), (3, "slot")])
+        op["h2"] = r.below(1 << 16)
+    elif o == "iop":
+        op["name"] = r.choice(["__iadd__", "__isub__"])
+        op["rhs"] = r.weighted([(4, "scalar"), (4, "array"), (2, "masked"), (3, "unmasked")] + ([(1, "badlen")] if mode == "faults" else []))
+        op["m"] = [r.below(2) for _ in range(2 * maxn + 2)]
+    elif o == "comp":
+        op["c"] = r.below(8)
+    elif o == "elem_w":
+        op["c"] = r.below(4)
+    elif o == "release":
+        op["what"] = r.weighted([(6, "owner"), (4, "any")])
+    elif o == "gcp":
+        op["n"] = r.range(1, 6)
+    elif o == "mv_w":
+        op["i"] = r.below(maxn + 1)
+        op["c"] = r.below(4)
+    elif o == "frombuf":
+        op["t"] = r.choice(sorted(BUF_FMT))
+        op["n"] = r.range(0, maxn)
+        op["src"] = r.choice(["array", "ctypes", "imath"])
+    elif o == "badbuf":
+        op["t"] = r.choice(sorted(BUF_FMT))
+        op["n"] = r.range(1, maxn)
+        op["how"] = r.choice(["wrongtype", "extradim", "flat", "inner", "strided", "bytes", "wrongsize", "offset", "empty2d", "imath_other"])
+    elif o == "ro_attack":
+        op["how"] = r.choice(["iop_any", "set_s", "set_a", "setm_s", "setm_a", "elem", "comp_set", "mv"])
+        op["m"] = [r.below(2) for _ in range(maxn)]
+        op["k"] = r.below(16)
+    return op
+
+
+FAMILY_FIRST = {"matrix": "m_new", "array2d": "d_new", "varray": "v_new", "string": "s_new"}
+
+
 def gen_plan(seed, idx, mode):
     r = Rng(seed)
+    family = r.weighted([(52, "fixed1d"), (12, "matrix"), (12, "array2d"), (12, "varray"), (12, "string")])
     # swarm: which type families, which op kinds are enabled in this run
     fams = [f for f in TYPE_FAMILIES if r.chance(0.5)] or [r.choice(list(TYPE_FAMILIES))]
     types = [t for f in fams for t in TYPE_FAMILIES[f]]
     ntypes = r.range(1, 3)
     types = [r.choice(types) for _ in range(ntypes)]
-    table = OPS_FAULTS if mode == "faults" else OPS_PLAIN
-    enabled = [(w, o) for (w, o) in table if o in ("new", "get") or r.chance(0.75)]
+    if family == "fixed1d":
+        table = OPS_FAULTS if mode == "faults" else OPS_PLAIN
+        first = "new"
+    else:
+        table = FAM.FAMILY_OPS[family]
+        first = FAMILY_FIRST[family]
+        if mode != "faults":
+            table = [(w, o) for (w, o) in table if o not in ("release", "gcp") and not o.endswith("_bad")]
+    enabled = [(w, o) for (w, o) in table if o in (first, "get", "m_row", "v_row", "s_get", "d_item") or r.chance(0.75)]
     nops = r.range(4, 40)
     maxn = r.choice([3, 6, 6, 12])
     ops = []
     vs = r.below(1000)
     for k in range(nops):
-        o = r.weighted(enabled) if k > 0 else "new"
+        o = r.weighted(enabled) if k > 0 else first
         vs += 1
         op = {"op": o, "h": r.below(1 << 16), "v": vs}
-        if o in ("new", "newval"):
-            op["t"] = r.choice(types)
-            op["n"] = r.range(0, maxn)
-            op["fill"] = r.chance(0.8)
-        elif o in ("get",):
-            op["i"] = r.range(-maxn - 1, maxn)
-            op["keep"] = r.chance(0.4)
-        elif o == "bad_get":
-            op["i"] = r.choice([maxn + 1, -maxn - 2, 2 ** 31, -2 ** 31, 2 ** 32, -2 ** 32, 2 ** 63 - 1, -2 ** 63, 2 ** 64, 2 ** 32 + 1])
-            op["rel"] = r.chance(0.5)      # relative to the actual length: n, -n-1
-        elif o == "slice":
-            op["s"] = gen_slice(r, maxn)
-        elif o in ("mask", "setm_s", "setm_a", "ifelse_s", "ifelse_a"):
-            op["m"] = [r.choice([0, 1, 1, 0, 2, -1]) for _ in range(maxn)]
-            op["dlen"] = r.weighted([(9, 0), (1, r.choice([-1, 1, 2]))]) if mode == "faults" else 0
-            if o == "setm_a":
-                op["form"] = r.weighted([(4, "full"), (4, "packed"), (2, "bad")]) if mode == "faults" else r.weighted([(4, "full"), (4, "packed")])
-            if o == "ifelse_a":
-                op["dlen2"] = r.weighted([(9, 0), (1, 1)]) if mode == "faults" else 0
-        elif o in ("set_s", "set_a", "bad_set"):
-            op["idx"] = r.range(-maxn - 1, maxn) if r.chance(0.5) else gen_slice(r, maxn)
-            if o == "bad_set":
-                op["idx"] = r.choice([2 ** 31, -2 ** 31, 2 ** 32, 2 ** 32 + 1, 2 ** 63 - 1, -2 ** 63, maxn + 3, 2 ** 64, -2 ** 64, 2 ** 63])
-            op["dlen"] = r.weighted([(9, 0), (1, r.choice([-1, 1]))]) if mode == "faults" else 0
-            op["src"] = r.weighted([(6, "new"), (3, "slot")])
-            op["h2"] = r.below(1 << 16)
-        elif o == "iop":
-            op["name"] = r.choice(["__iadd__", "__isub__"])
-            op["rhs"] = r.weighted([(4, "scalar"), (4, "array"), (2, "masked"), (3, "unmasked")] + ([(1, "badlen")] if mode == "faults" else []))
-            op["m"] = [r.below(2) for _ in range(2 * maxn + 2)]
-        elif o == "comp":
-            op["c"] = r.below(8)
-        elif o == "elem_w":
-            op["c"] = r.below(4)
-        elif o == "release":
-            op["what"] = r.weighted([(6, "owner"), (4, "any")])
-        elif o == "gcp":
-            op["n"] = r.range(1, 6)
-        elif o == "mv_w":
-            op["i"] = r.below(maxn + 1)
-            op["c"] = r.below(4)
-        elif o == "frombuf":
-            op["t"] = r.choice(sorted(BUF_FMT))
-            op["n"] = r.range(0, maxn)
-            op["src"] = r.choice(["array", "ctypes", "imath"])
-        elif o == "badbuf":
-            op["t"] = r.choice(sorted(BUF_FMT))
-            op["n"] = r.range(1, maxn)
-            op["how"] = r.choice(["wrongtype", "extradim", "flat", "inner", "strided", "bytes", "wrongsize", "offset", "empty2d", "imath_other"])
-        elif o == "ro_attack":
-            op["how"] = r.choice(["iop_any", "set_s", "set_a", "setm_s", "setm_a", "elem", "comp_set", "mv"])
-            op["m"] = [r.below(2) for _ in range(maxn)]
-            op["k"] = r.below(16)
+        gen_op_fields(r, o, op, mode, maxn, types)
+        FAM.gen_family_op(r, family, o, op, maxn, gen_slice)
         ops.append(op)
-    return {"mode": mode, "ops": ops}
+    return {"mode": mode, "family": family, "ops": ops}
 
 
 # ---------------------------------------------------------------------------------------------------
 # interpreter
 # ---------------------------------------------------------------------------------------------------
-class Sim:
+class Sim(FAM.FamilyMixin):
+    Violation = Violation
+    Handle = Handle
+    DEFAULTS = DEFAULTS
+    pack_vals = staticmethod(pack_vals)
+    fresh_value = staticmethod(fresh_value)
+    to_real = staticmethod(to_real)
+
     def __init__(self, plan):
         self.plan = plan
         self.slots = []          # live Handles
@@ -320,6 +345,9 @@ class Sim:
         for o in self.slots:
             if o.store is h.store:
                 o.owner_dead = True
+            elif h.kind == "varr" and any(o.store is rs for rs in h.store.vals):
+                o.owner_dead = True
+                self.inc("probe.row_view_outlives_its_variable_array")
         h.real = None
         del h
         gc.collect()
@@ -385,10 +413,12 @@ class Sim:
                         raise Violation("element-value", "element reference reads %r, model %r" % (t.flat(h.real), list(h.get(0))))
                 elif h.kind == "mv":
                     self.check_mv(h)
+                else:
+                    self.check_family(h, after)
             except Violation as v:
                 v.detail = "%s handle (%s) after %s: %s" % (h.hkind(), h.tname, after, v.detail)
                 v.hk = h.hkind() + ("+owner-released" if h.owner_dead else "")
-                v.tn = h.tname
+                v.tn = getattr(h, "mtype", None) or getattr(h, "atype", None) or getattr(h, "vtype", None) or h.tname
                 raise
 
     def check_mv(self, h):
@@ -941,10 +971,14 @@ class Sim:
                 return False
             obj = ((ct[fmt] * (width + 1)) * n)()
         elif how == "strided":
-            base = pyarray.array(fmt, [0] * (2 * n)) if (ndim == 1 and n >= 2) else None
-            if base is None:
+            if n < 2:
                 return False     # (a one-element strided view is contiguous)
-            obj = memoryview(base)[::2]
+            if ndim == 1:
+                obj = memoryview(pyarray.array(fmt, [0] * (2 * n)))[::2]
+            else:
+                # right element type and inner extent, but every 2nd row / rows in reverse order
+                rows = memoryview(bytearray(isz * width * 2 * n)).cast("B").cast(fmt, shape=[2 * n, width])
+                obj = rows[::2] if op["v"] % 2 else rows[n - 1::-1]
         elif how == "bytes":
             obj = bytes(isz * width * n)
         elif how == "wrongsize":
